@@ -41,6 +41,11 @@ pub struct PRule {
     /// F.d is read only by rules on lower levels — so the outcome is the same on every schedule
     #[serde(default)]
     pub custom: Option<u8>,
+    /// date window: 0 none, 1 expired in 2001, 2 effective from 2999, 3 effective 2001 and expiring 2999 (open
+    /// now). Whether the parallel engine looks at date windows at all the property does not say — only that it
+    /// does what evaluating the rules one by one does
+    #[serde(default)]
+    pub dates: u8,
 }
 
 #[derive(Clone, Debug, Serialize, Deserialize)]
@@ -139,6 +144,12 @@ fn build_kb(w: &ParWorkload) -> KnowledgeBase {
             actions.push(ActionType::Custom { action_type: ["dropD", "setD7", "setE7", "nestE7", "failE"][k as usize % 5].to_string(), params: std::collections::HashMap::new() });
         }
         let mut rule = Rule::new(format!("R{i}"), to_group(&r.cond), actions).with_salience(r.salience);
+        if r.dates % 4 == 1 || r.dates % 4 == 3 {
+            rule = if r.dates % 4 == 1 { rule.with_date_expires_str("2001-01-01T00:00:00Z").unwrap() } else { rule.with_date_effective_str("2001-01-01T00:00:00Z").unwrap() };
+        }
+        if r.dates % 4 == 2 || r.dates % 4 == 3 {
+            rule = if r.dates % 4 == 2 { rule.with_date_effective_str("2999-01-01T00:00:00Z").unwrap() } else { rule.with_date_expires_str("2999-01-01T00:00:00Z").unwrap() };
+        }
         rule.enabled = r.enabled;
         let _ = kb.add_rule(rule);
     }
@@ -231,9 +242,12 @@ pub fn scenario(w: &ParWorkload, slot: &Shared) {
     if let Some((n, k)) = seen.iter().find(|(_, k)| **k != 1) {
         fail(slot, "par.counts", "rule-reported-more-than-once", format!("rule {n} appears {k} times in the execution contexts"));
     }
-    if got.len() != enabled_rules || result.total_rules_evaluated != enabled_rules {
-        let sig = if got.len() < enabled_rules { "enabled-rule-missing-from-result" } else { "more-results-than-enabled-rules" };
-        fail(slot, "par.counts", sig, format!("{} enabled rules, {} execution contexts, total_rules_evaluated {}", enabled_rules, got.len(), result.total_rules_evaluated));
+    // (a rule outside its date window may or may not be reported — the comparison with the sequential path
+    // below decides; every other enabled rule must be)
+    let in_window = w.rules.iter().filter(|r| r.enabled && r.dates % 4 != 1 && r.dates % 4 != 2).count();
+    if got.len() < in_window || got.len() > enabled_rules || result.total_rules_evaluated != got.len() {
+        let sig = if got.len() < in_window { "enabled-rule-missing-from-result" } else { "more-results-than-enabled-rules" };
+        fail(slot, "par.counts", sig, format!("{} enabled rules ({} of them not outside a date window), {} execution contexts, total_rules_evaluated {}", enabled_rules, in_window, got.len(), result.total_rules_evaluated));
     }
     let fired_n = got.iter().filter(|(_, f)| *f).count();
     if result.total_rules_fired != fired_n {
@@ -241,7 +255,10 @@ pub fn scenario(w: &ParWorkload, slot: &Shared) {
     }
     // par.same-fired
     if got != want {
-        let diff: Vec<String> = got.iter().zip(&want).filter(|(a, b)| a != b).map(|(a, b)| format!("{}: parallel {} / sequential {}", a.0, a.1, b.1)).collect();
+        let mut diff: Vec<String> = got.iter().zip(&want).filter(|(a, b)| a != b).map(|(a, b)| format!("{}: parallel {} / sequential {}", a.0, a.1, b.1)).collect();
+        if got.len() != want.len() {
+            diff.push(format!("{} rules reported by the parallel path, {} by the sequential one", got.len(), want.len()));
+        }
         fail(slot, "par.same-fired", "verdicts-differ-from-sequential", format!("max_threads {} min_rules_per_thread {}: {diff:?}", w.max_threads, w.min_rules_per_thread));
     }
     if reference.total_rules_evaluated != result.total_rules_evaluated || reference.total_rules_fired != result.total_rules_fired {
@@ -252,7 +269,7 @@ pub fn scenario(w: &ParWorkload, slot: &Shared) {
         count(slot, "probe.workers_left_facts_unchanged");
         // (a rule whose own action fails is left to the comparison with the sequential path: the property
         // does not say whether such a rule counts as fired)
-        for (i, r) in w.rules.iter().enumerate().filter(|(_, r)| r.enabled && !has_foreign_literal(&r.cond) && r.custom != Some(4)) {
+        for (i, r) in w.rules.iter().enumerate().filter(|(_, r)| r.enabled && !has_foreign_literal(&r.cond) && r.custom != Some(4) && r.dates % 4 != 1 && r.dates % 4 != 2) {
             let mine = eval(&r.cond, &w.facts);
             let theirs = got.iter().find(|(n, _)| *n == format!("R{i}")).map(|(_, f)| *f);
             if theirs != Some(mine) {
@@ -286,6 +303,9 @@ pub fn scenario(w: &ParWorkload, slot: &Shared) {
     if w.rules.iter().any(|r| r.custom.is_some() && r.custom != Some(4) && r.enabled) {
         count(slot, if w.nested { "probe.action_that_writes_a_member_of_the_object_fact" } else { "probe.action_that_writes_a_fact_on_the_top_level" });
     }
+    if w.rules.iter().any(|r| r.enabled && (r.dates % 4 == 1 || r.dates % 4 == 2)) {
+        count(slot, "probe.rule_outside_its_date_window");
+    }
     if !w.enabled {
         count(slot, "probe.parallelism_off");
     }
@@ -311,7 +331,7 @@ pub fn generate(rng: &mut Rng, _thorough: bool) -> ParWorkload {
     let sal = [0i32, 0, 0, 5, -2];
     let mut rules: Vec<PRule> = Vec::new();
     for _ in 0..n {
-        let mut r = PRule { salience: *rng.pick(&sal), enabled: !rng.chance(1, 8), cond: gen_cond(rng, 0), set: if rng.chance(1, 3) { Some((rng.below(4) as u8, rng.range(-1, 3))) } else { None }, custom: None };
+        let mut r = PRule { salience: *rng.pick(&sal), enabled: !rng.chance(1, 8), cond: gen_cond(rng, 0), set: if rng.chance(1, 3) { Some((rng.below(4) as u8, rng.range(-1, 3))) } else { None }, custom: None, dates: 0 };
         // 1 in 6: a near-twin of an earlier rule on the same level — the same guard with the literal typed
         // differently, or the same guard with the neighbouring literal — so that anything that identifies
         // "the same condition" too coarsely has something to confuse
@@ -371,6 +391,14 @@ pub fn generate(rng: &mut Rng, _thorough: bool) -> ParWorkload {
             }
         }
     }
+    // one workload in eight: a third of the rules carry a date window (expired, not yet effective, or open now)
+    if rng.chance(1, 8) {
+        for r in rules.iter_mut() {
+            if rng.chance(1, 3) {
+                r.dates = 1 + rng.below(3) as u8;
+            }
+        }
+    }
     ParWorkload {
         rules,
         facts: [rng.range(-1, 3), rng.range(-1, 3), rng.range(-1, 3), rng.range(-1, 3)],
@@ -413,6 +441,11 @@ pub fn shrink(w: &ParWorkload) -> Vec<ParWorkload> {
         if w.rules[i].set.is_some() {
             let mut c = w.clone();
             c.rules[i].set = None;
+            out.push(c);
+        }
+        if w.rules[i].dates != 0 {
+            let mut c = w.clone();
+            c.rules[i].dates = 0;
             out.push(c);
         }
     }
